@@ -45,6 +45,14 @@ TYPE_OF = {'w': 'Param', 'b': 'Param', 'mean': 'BatchStat', 'count': 'Count'}
 TYPES = {'Param': nnx.Param, 'BatchStat': nnx.BatchStat, 'Count': Count}
 
 
+def wrap(transform, fn, seed, **kw):
+  """The transform applied directly, transform(fn, **kw), or in its
+  decorator / keyword-only spelling, transform(**kw)(fn)."""
+  if seed % 2:
+    return transform(fn, **kw)
+  return transform(**kw)(fn)
+
+
 def body(m, x, write):
   """Per-example computation; writes the state groups listed in `write`."""
   y = jnp.tanh(x @ m.w.value + m.b.value) + m.mean.value
@@ -143,9 +151,9 @@ def vmap_vs_per_index(case, ctx):
     for k in BASE(d):
       new[k].append(np.asarray(getattr(mi, k).value))
   with sut('nnx.vmap'):
-    f = nnx.vmap(lambda mm, x: body(mm, x, write),
-                 in_axes=(state_axes(case, axes), case['in_axis']),
-                 out_axes=case['out_axis'])
+    f = wrap(nnx.vmap, lambda mm, x: body(mm, x, write), case['seed'],
+             in_axes=(state_axes(case, axes), case['in_axis']),
+             out_axes=case['out_axis'])
     y = f(m, xin)
   require(close(y, np.stack(ys, axis=case['out_axis'])), lambda: f'vmap '
           f'output differs from per-index calls (axes={axes})')
@@ -234,9 +242,10 @@ def scan_vs_loop(case, ctx):
     y = body(mm, x + cc, write)
     return cc * 0.5 + jnp.mean(y), y
   with sut('nnx.scan'):
-    f = nnx.scan(step, in_axes=(sa, nnx.Carry, case['in_axis']),
-                 out_axes=(nnx.Carry, case['out_axis']), length=n,
-                 reverse=case['reverse'])
+    f = wrap(nnx.scan, step, case['seed'],
+             in_axes=(sa, nnx.Carry, case['in_axis']),
+             out_axes=(nnx.Carry, case['out_axis']), length=n,
+             reverse=case['reverse'])
     c_s, y_s = f(m, jnp.asarray(c0), xin)
   require(close(c_s, c), lambda: f'final carry {np.asarray(c_s)} vs loop '
           f'{np.asarray(c)} (axes={axes}, reverse={case["reverse"]})')
@@ -341,8 +350,8 @@ def scan_module_carry(case, ctx):
     ys[i] = np.asarray(y)
   ms, c0 = build()
   with sut('nnx.scan (module carry)'):
-    f = nnx.scan(step, in_axes=(nnx.Carry, 0), out_axes=(nnx.Carry, 0),
-                 length=n, reverse=case['reverse'])
+    f = wrap(nnx.scan, step, case['seed'], in_axes=(nnx.Carry, 0),
+             out_axes=(nnx.Carry, 0), length=n, reverse=case['reverse'])
     c_s, y_s = f(c0, jnp.asarray(xs))
   require(close(y_s, np.stack(ys)), lambda: f'stacked outputs '
           f'{np.asarray(y_s)} differ from the loop {np.stack(ys)}')
@@ -449,8 +458,8 @@ def grad_vs_jax(case, ctx):
     l, (g1, g2) = jax.value_and_grad(pure_vals, argnums=(0, 1))(pv1, pv2)
     return l, g1, g2
   with sut('nnx.grad (wrap)'):
-    gf = tr(lambda a, b, xx: loss(a, b if two else None, xx),
-            argnums=argnums, has_aux=case['has_aux'])
+    gf = wrap(tr, lambda a, b, xx: loss(a, b if two else None, xx),
+              case['seed'], argnums=argnums, has_aux=case['has_aux'])
   hist = list(case.get('history', []))
   for hi, step in enumerate(hist):
     if step == 'mutate':
